@@ -50,7 +50,8 @@ func init() {
 		Rule: "a case = one submission of a really signed transaction to the real TxActor of a real TXPoolServer whose ledger (4-7 validators, real governance and relayer-manager contracts) " +
 			"went through a plan-chosen history of blocks: relayer register/remove requests with full or deficient validator approval, late approvals, candidate registration/approval, blackNode, quitNode, commitDpos epoch changes, " +
 			"fake-clock advances of 1-100 s across the one-minute permitted-address refresh. Signer sets: one user, one (former/current/candidate) consensus peer, two users, outsider+user(+peer), the operator multi-signature, " +
-			"1-3 never-registered outsiders, a 2-of-2 multi-signature address of two users, outsider+peer. evaluations = submissions; a run is non-trivial if it made a submission; distinct by the sequence of (signer classes, verdict, outcome)",
+			"1-3 never-registered outsiders, a 2-of-2 multi-signature address of two users, outsider+peer, and degenerate sets over both submission paths (net, http): no signature entry at all, an entry without public keys (hand-made wire bytes), " +
+			"permitted parties' keys under an impossible threshold (M=0 or M>n), well-formed multi-signatures whose address is nobody's (consensus keys under a non-operator threshold; 1-of-{validator,outsider}). evaluations = submissions; a run is non-trivial if it made a submission; distinct by the sequence of (signer classes, verdict, outcome)",
 		Real: []string{"txnpool/proc TXPoolServer, TxActor (handleTransaction, isValidSender, updatePermittedAddrMap), TxPoolActor, one real worker goroutine", "http/base/actor GetStorageItem/UpdatePermittedAddrMap on ledger.DefLedger",
 			"ledger + native governance (node_manager, relayer_manager) executing every registry change in committed blocks", "ontology-eventbus actors (synchronous dispatcher)", "real ECDSA signatures on every transaction"},
 		Stub: []string{"VBFT server (block-producer stub)", "p2p / RPC front ends (TxReq handed to the actor directly, as both do)", "validators (none registered: an admitted transaction stays pending, which is what is observed)", "wall clock (synctest fake clock)"},
@@ -58,6 +59,7 @@ func init() {
 			"the process-wide permitted-address cache is cleared between runs through an overlay-added hook"},
 		QuickRuns: 320, ThoroughRuns: 24000, QuickCap: 60, ThoroughCap: 900,
 		RequiredProbes: []string{"admitted_via_relayer", "admitted_via_consensus", "admitted_via_operator", "refused_no_permitted_signer", "refused_multi_no_permitted_signer", "refused_removed_relayer",
+			"refused_zero_signature_net", "refused_zero_signature_http", "refused_empty_pubkeys_entry", "refused_invalid_multisig_threshold", "refused_multisig_address_of_nobody",
 			"admitted_multi_permitted_signer_not_first", "admitted_multi_only_via_relayer", "admitted_consensus_address_learned_by_refresh", "admitted_relayer_after_some_removal"},
 		Generate: genC36,
 		Execute:  execC36,
